@@ -111,10 +111,11 @@ WORLD_EVENTS = {}
 _CLASSES = {}
 
 
-def rec_class(mask):
-    """Recorder class defining the subset `mask` of the seven hooks."""
-    if mask in _CLASSES:
-        return _CLASSES[mask]
+def rec_class(mask, derived=False):
+    """Recorder class defining the subset `mask` of the seven hooks; with
+    `derived` a subclass of it that inherits every hook (converged() too)."""
+    if (mask, derived) in _CLASSES:
+        return _CLASSES[(mask, derived)]
     parts = [M_INIT, M_IPAIR, M_LOOPALL, M_LOOP, M_POST, M_REDUCE, M_PYINIT]
     meths = ''.join(p.replace('{LOG}', str(LOG))
                     for k, p in enumerate(parts) if mask & (1 << k))
@@ -122,13 +123,14 @@ def rec_class(mask):
         meths = M_INIT.replace('{LOG}', str(LOG))
     uid = 'M%d' % mask
     text = REC_SRC.format(uid=uid, methods=meths)
+    text += '\n\nclass Rec%sD(Rec%s):\n    pass\n' % (uid, uid)
     fname = '<c03-rec-%s>' % uid
     linecache.cache[fname] = (len(text), None, text.splitlines(True), fname)
     ns = {'__name__': 'c03_rec_%s' % uid, 'WORLD_EVENTS': WORLD_EVENTS}
     exec(compile(text, fname, 'exec'), ns)
-    cls = ns['Rec' + uid]
-    _CLASSES[mask] = cls
-    return cls
+    _CLASSES[(mask, False)] = ns['Rec' + uid]
+    _CLASSES[(mask, True)] = ns['Rec' + uid + 'D']
+    return _CLASSES[(mask, derived)]
 
 
 def mover_class():
@@ -208,8 +210,10 @@ def make_world(seed, k, world):
         nsrc = int(rng.integers(1, len(names) + 1))
         srcs = [str(s) for s in rng.choice(names, size=nsrc, replace=False)]
         needs_src = mask & (2 | 4 | 8)
-        e = rec_class(mask)(dest=dest, sources=srcs if needs_src else None,
-                            eid=eid[0], conv_k=int(rng.integers(1, 6)))
+        derived = bool(rng.random() < 0.3)
+        e = rec_class(mask, derived)(
+            dest=dest, sources=srcs if needs_src else None,
+            eid=eid[0], conv_k=int(rng.integers(1, 6)))
         e.world = world
         return e
 
